@@ -206,7 +206,9 @@ class Beam(_Simu):
         # Lagrange path from the base class.
         beamStructure = self.structure
         all_unknowns = self.Get_unknowns(problemType)
-        hermitian = set(all_unknowns) - {"x", "rx"}
+        # on an inclined member every global component also acts on the Hermitian fields:
+        # all of them go through N = N_local · P
+        hermitian = set(all_unknowns)
         lagrange_idx = [i for i, u in enumerate(unknowns) if u not in hermitian]
         hermitian_idx = [i for i, u in enumerate(unknowns) if u in hermitian]
 
@@ -237,8 +239,15 @@ class Beam(_Simu):
 
         coord_e_pg = groupElem.Get_GaussCoordinates_e_pg(matrixType, elements)
         wJ_e_pg = groupElem.Get_weightedJacobian_e_pg(matrixType)[elements]
-        N_e_pg = groupElem.Get_beam_N_e_pg(beamStructure)[elements]
+        N_e_pg = np.asarray(groupElem.Get_beam_N_e_pg(beamStructure))[elements]
         N_lag_pg = groupElem.Get_N_pg(matrixType)[:, 0, :]
+
+        # The rows of N_e_pg are the local components (u, v, w, rx, ry, rz) of the beam.
+        # The loads are given along the global axes: u_global = P · u_local (P maps local -> global).
+        P_e = np.zeros((groupElem.Ne, 3, 3))
+        for beam in beamStructure.beams:
+            P_e[groupElem.Get_Elements_Tag(beam.name)] = beam._Calc_P()
+        P_e = P_e[elements]
 
         # Ne * dof_n * nPe DOFs per element (Hermitian N couples force and moment DOFs)
         dofsValues_u = np.zeros((Ne * dof_n * nPe, len(herm_unknowns)))
@@ -258,11 +267,20 @@ class Beam(_Simu):
                 eval_e = eval_n[connect]
                 eval_e_pg = np.einsum("en,pn->ep", eval_e, N_lag_pg, optimize="optimal")
 
+            # global component `row` of the interpolated displacement / rotation
+            block = 3 * (row // 3)
+            N_row_e_pg = np.einsum(
+                "el,epln->epn",
+                P_e[:, row % 3, :],
+                N_e_pg[:, :, block : block + 3, :],
+                optimize="optimal",
+            )
+
             values_e_pg = np.einsum(
                 "ep,ep,epn->epn",
                 wJ_e_pg,
                 eval_e_pg,
-                N_e_pg[:, :, row, :],
+                N_row_e_pg,
                 optimize="optimal",
             )
             dofsValues_u[:, u] = np.sum(values_e_pg, axis=1).ravel()
